@@ -214,7 +214,7 @@ def run(ctx):
             ctx.notes.append('model evaluation failed: ' + str(ex)[-800:])
     ctx.extra['model_impl_mismatches'] = len(mism)
 
-    if not ctx.violations and not ctx.known_printed:
+    if not ctx.violations:   # a printed KNOWN-FINDING must not hide a broken proof / model / correspondence
         if not built:
             ctx.violation('proof-broken', {'theorems': [o[0] for o in ctx.obligations if not o[1]], 'log': getattr(ctx, 'broken_log', '')[-3000:]}, 'Props/C08.v no longer checks', no_input=True)
         elif not model_ok:
